@@ -78,6 +78,10 @@ func genWorkloads(kind string, max int) *rapid.Generator[[]workload] {
 				continue // real sources have unique namespace/name
 			}
 			seen[w.NS+"/"+w.Name] = true
+			if rapid.IntRange(0, 2).Draw(t, "hasuid") > 0 {
+				w.UID = rapid.SampledFrom([]string{"u1", "u2"}).Draw(t, "wuid")
+				w.Gen = int64(rapid.IntRange(0, 2).Draw(t, "wgen"))
+			}
 			if rapid.IntRange(0, 3).Draw(t, "hastpl") > 0 {
 				w.Template = genLabelMap(false).Draw(t, "tpl")
 			}
